@@ -28,7 +28,7 @@ EXPLANATION = ("exhaustive single-fault injection at every user-callback "
                "invocation; reference = pre-state snapshot (outcome-deciding "
                "callbacks) or the fault-free twin (change handlers), plus a "
                "fixed follow-up suite compared with the twin")
-BOUNDS = {"quick": "~60 scenarios x 2 pre-states, one fault per operation",
+BOUNDS = {"quick": "48 scenarios x 2 pre-states, one fault per operation",
           "thorough": "same + longer payloads (k up to 6 items)"}
 ASSUMPTIONS = ["one injected fault per operation", "post_setattr is not in "
                "the statement's list of callbacks", "trait_set/constructor "
@@ -133,6 +133,21 @@ class Obj(HasTraits):
                                                        len(ev.added)))
         INJ.point("static_items_handler")
 
+    def _dct_items_changed(self, ev):
+        self.__dict__.setdefault("_calls", []).append(("static_dct_items",
+                                                       len(ev.added)))
+        INJ.point("static_items_handler")
+
+    def _st_items_changed(self, ev):
+        self.__dict__.setdefault("_calls", []).append(("static_st_items",
+                                                       len(ev.added)))
+        INJ.point("static_items_handler")
+
+    def _anytrait_changed(self, name, old, new):
+        if name == "plain":
+            self.__dict__.setdefault("_calls", []).append(("anytrait", new))
+            INJ.point("anytrait_handler")
+
 
 class World:
     def __init__(self, pre):
@@ -157,7 +172,27 @@ class World:
         def obs_items(ev):
             calls.append(("obs_items", len(ev.added)))
             INJ.point("observe_items_handler")
-        self.h = (otc, obs, otc2, obs2, obs_items)
+        def obs_ditems(ev):
+            calls.append(("obs_dct_items", len(ev.added)))
+            INJ.point("observe_items_handler")
+
+        def obs_sitems(ev):
+            calls.append(("obs_st_items", len(ev.added)))
+            INJ.point("observe_items_handler")
+
+        def obs_nested(ev):
+            calls.append(("obs_nested", ev.new))
+            INJ.point("observe_handler")
+
+        def otc_plain(new):
+            calls.append(("otc_plain", new))
+            INJ.point("otc_handler")
+        self.h = (otc, obs, otc2, obs2, obs_items, obs_ditems, obs_sitems,
+                  obs_nested, otc_plain)
+        self.o.observe(obs_ditems, "dct.items")
+        self.o.observe(obs_sitems, "st.items")
+        self.o.observe(obs_nested, "fac:v")
+        self.o.on_trait_change(otc_plain, "plain")
         self.o.on_trait_change(otc, "x")
         self.o.on_trait_change(otc2, "x")
         self.o.observe(obs, "x")
@@ -270,6 +305,12 @@ SCENARIOS = {
     "raw-set-ior": lambda w: w.raw_set.__ior__({2, 3}),
     "raw-set-symdiff": lambda w: w.raw_set.symmetric_difference_update(
         [1, 5, 6]),
+    "assign-plain": lambda w: setattr(w.o, "plain", 7),
+    "nested-assign": lambda w: setattr(w.o.fac, "v", 9),
+    "dict-del": lambda w: w.o.dct.pop(1, None),
+    "set-discard": lambda w: w.o.st.discard(1),
+    "list-pop": lambda w: w.o.lst.pop() if len(w.o.lst) else None,
+    "list-sort": lambda w: w.o.lst.sort(reverse=True),
     "adapt-chain3": lambda w: setattr(w, "adapted",
                                       w.mgr.adapt(w.adaptee, P3)),
     "observe-register-match": lambda w: w.o.observe(
@@ -291,7 +332,8 @@ def _register_first(w):
 SCENARIOS["observe-unregister-match"] = _unregister
 PREPARE = {"observe-unregister-match": _register_first}
 HANDLER_SITES = ("static_handler", "otc_handler", "observe_handler",
-                 "static_items_handler", "observe_items_handler")
+                 "static_items_handler", "observe_items_handler",
+                 "anytrait_handler")
 
 
 def plain(v):
@@ -322,7 +364,8 @@ def state_only(w):
     """values without identities (for comparison with the twin)"""
     d = w.o.__dict__
     return {"dict": {k: plain(v) for k, v in d.items()
-                     if k not in ("_calls",)},
+                     if k not in ("_calls",)
+                     and not k.startswith("_traits_cache_")},
             "fingerprint": fp(w.o),
             "raw": (list(w.raw_list), dict(w.raw_dict), sorted(w.raw_set)),
             "adapted": type(w.adapted).__name__}
@@ -430,7 +473,11 @@ def scenario(ctx, name, pre):
             if injected is None:
                 bad("harness", "fault point %d not reached on replay" % k)
                 continue
-            if site in HANDLER_SITES:
+            # (a property getter that runs while the property's own change
+            #  notification is being built is in the same position as a
+            #  change handler: the operation that triggered it is complete)
+            if site in HANDLER_SITES or (site == "cached_getter" and
+                                         name != "prop-cached-get"):
                 # the operation is complete, all other handlers still ran
                 if out[0] != "ok" and out0[0] == "ok":
                     bad("handler-fault-propagated", "a failing change "
